@@ -271,3 +271,104 @@ def step_vals(V):
             xs = [x[i] for i in range(n)]
             out.prove('pre-is-mean-before-split-sample', T.seq(out.result[0], _mean(xs[:ind])))
             out.prove('post-is-mean-after-split-sample', T.seq(out.result[1], _mean(xs[ind + 1:])))
+
+
+# ------------------------------------------------------------------------------------------- interpolation helpers
+GEN = 'eqsig.fns.generic.'
+
+
+@unit('C20', 'interp_left', functions=[GEN + 'interp_left'],
+      cases=[dict(form=f, with_y=w) for f in ('scalar', 'array') for w in (True, False)],
+      modes=('bounded',), sizes=dict(m=[1, 2, 3, 4]))
+def interp_left(V, form, with_y):
+    st = {}
+
+    def setup():
+        m = V.size('m', 1)
+        x = V.array('x', m)
+        for k in range(m - 1):
+            V.assume(T.sle(x[k], x[k + 1]))              # node set is monotone (non-decreasing)
+        y = V.array('y', m) if with_y else None
+        if form == 'scalar':
+            q = V.real('q')
+            V.assume(T.sge(q, x[0]))
+            qs = [q]
+            x0 = q
+        else:
+            qa = V.array('qs', 2)
+            V.assume(T.sge(qa[0], x[0]), T.sge(qa[1], x[0]))
+            qs = [qa[0], qa[1]]
+            x0 = qa
+        st.update(m=m, x=x, y=y, qs=qs)
+        return dict(x0=x0, x=x, y=y)
+    for out in V.run(GEN + 'interp_left', setup):
+        if not out.no_raise():
+            continue
+        m, x, y, qs = st['m'], st['x'], st['y'], st['qs']
+        r = out.result
+        vals = [r] if form == 'scalar' else ([r[0], r[1]] if hasattr(r, 'shape') and tuple(r.shape) == (2,) else None)
+        out.prove('result-shape', vals is not None and (form != 'scalar' or T.is_scalar(r)))
+        if vals is None:
+            continue
+        for j, q in enumerate(qs):
+            # greatest node not exceeding the query
+            want = None
+            for k in range(m):
+                cand = y[k] if with_y else k
+                want = cand if want is None else T.site(T.sle(x[k], q), cand, want)
+            out.prove('value-at-greatest-node-not-exceeding-query[%d]' % j, T.seq(vals[j], want))
+        out.unchanged('x', x)
+        if with_y:
+            out.unchanged('y', y)
+
+
+@unit('C20', 'interp_left/assertion', functions=[GEN + 'interp_left'], modes=('bounded',), sizes=dict(m=[2]))
+def interp_left_assert(V):
+    def setup():
+        m = V.size('m', 1)
+        x = V.array('x', m)
+        q = V.real('q')
+        V.assume(T.slt(q, x[0]))
+        return dict(x0=q, x=x)
+    for out in V.run(GEN + 'interp_left', setup):
+        out.prove('query-below-first-node-is-rejected', out.raised is not None and out.raised.kind == 'AssertionError')
+
+
+@unit('C20', 'interp2d', functions=[GEN + 'interp2d'], modes=('bounded',), sizes=dict(m=[2, 3, 4], c=[1, 2]),
+      thorough_sizes=dict(m=[2, 3, 4, 5], c=[1, 2, 3]), budget_ms=20000)
+def interp2d(V):
+    st = {}
+
+    def setup():
+        m, c = V.size('m', 2), V.size('c', 1)
+        xf = V.array('xf', m)
+        for k in range(m - 1):
+            # strictly ascending nodes; spacing >= 1e-10 is a precondition derived from the code's divide-by-zero
+            # guard np.clip(denom, 1e-10, None) (closer nodes are outside the helper's usable domain)
+            V.assume(T.sge(T.ssub(xf[k + 1], xf[k]), Q('1e-10')))
+        f = V.array('f', (m, c))
+        x = V.array('x', 2)
+        st.update(m=m, c=c, xf=xf, f=f, x=x)
+        return dict(x=x, xf=xf, f=f)
+    for out in V.run(GEN + 'interp2d', setup):
+        if not out.no_raise():
+            continue
+        m, c, xf, f, x = st['m'], st['c'], st['xf'], st['f'], st['x']
+        r = out.result
+        ok = hasattr(r, 'shape') and tuple(r.shape) == (2, c)
+        out.prove('shape-is-queries-by-columns', ok)
+        if not ok:
+            continue
+        for qi in range(2):
+            q = x[qi]
+            for col in range(c):
+                want = f[m - 1, col]                                            # q >= last node: clamped
+                for k in range(m - 2, -1, -1):
+                    t = T.sdiv(T.ssub(q, xf[k]), T.ssub(xf[k + 1], xf[k]))
+                    lerp = T.sadd(f[k, col], T.smul(t, T.ssub(f[k + 1, col], f[k, col])))
+                    want = T.site(T.slt(q, xf[k + 1]), lerp, want)
+                want = T.site(T.sle(q, xf[0]), f[0, col], want)                 # q <= first node: clamped
+                out.prove('column-wise-linear-interpolation-with-end-clamping[q%d,c%d]' % (qi, col), T.seq(r[qi, col], want))
+        out.unchanged('x', x)
+        out.unchanged('xf', xf)
+        out.unchanged('f', f)
